@@ -71,7 +71,17 @@ def write_roles(res, fn, loop):
     ], res=res, scope=loop)
 
 
+_NE_FORM = {"not (data == existing_data)": "data != existing_data", "data == existing_data": "not (data != existing_data)"}
+
+
+def write_lits(p, nm):
+    """Literals of a path of Write.run in canonical spelling (A.norm_src), the comparison of the data (a str on these paths)
+    with the file contents always phrased with `!=`: `not (existing_data == data)` reads `data != existing_data`."""
+    return [_NE_FORM.get(l, l) for l in K.lit_srcs(p, nm, norm=True)]
+
+
 def branch_tag(lits):
+    """*lits*: path literals in the canonical spelling of A.norm_src (`existing_data != data` reads `data != existing_data`)."""
     if "not os.path.exists(filepath)" in lits:
         return "file-missing"
     tags = []
@@ -100,7 +110,7 @@ def check_write(ctx):
             if ".get('changed'" in s or s.endswith("['changed']"):
                 entry_names.add(n.targets[0].id)
     for p in P.loop_body_paths(loop):
-        lits = K.lit_srcs(p, nm)
+        lits = write_lits(p, nm)
         ys = [i for i, y in p.yields()]
         for i, e in enumerate(p.ev):
             if e[0] not in ("stmt", "partial"):
@@ -147,7 +157,7 @@ def check_write(ctx):
                           % (A.src(v.args[1]) if len(v.args) > 1 else "None"), detail="incoming flag defaults to False")
     # (c) an unchanged comparison reaches no write; existing file rewritten only under overwrite / difference
     for p in P.loop_body_paths(loop):
-        lits = K.lit_srcs(p, nm)
+        lits = write_lits(p, nm)
         if "os.path.exists(filepath)" not in lits:
             continue
         for e in p.ev:
@@ -221,18 +231,21 @@ def check_write_path_var(ctx, fn, loop, nm):
     mf = ctx.tree.func(WRITE, "Write._make_filename")
     rets = [r for r in A.walk_local(mf) if isinstance(r, ast.Return) and A.enclosing_func(r) is mf]
     okj = False
-    if len(rets) == 1 and isinstance(rets[0].value, ast.Tuple) and len(rets[0].value.elts) == 4 and ok:
+    retv = rets[0].value if len(rets) == 1 else None
+    if isinstance(retv, ast.Name) and A.single_def(mf, retv.id) is not None:     # `_ret = (...); return _ret`
+        retv = A.single_def(mf, retv.id)
+    if isinstance(retv, ast.Tuple) and len(retv.elts) == 4 and ok:
         # position of the path in the returned tuple = position of `name` in the unpacking
         tgt = defs[0].targets[0]
         if isinstance(tgt, ast.Tuple):
             pos = [i for i, e in enumerate(tgt.elts) if A.src(e) == name]
             if pos:
-                rv = rets[0].value.elts[pos[0]]
+                rv = retv.elts[pos[0]]
                 if isinstance(rv, ast.Name):
                     last = [a for a in mf.body if isinstance(a, ast.Assign) and any(A.src(t) == rv.id for t in a.targets)]
                     if last:
                         v = last[-1].value
-                        first = rets[0].value.elts[0]
+                        first = retv.elts[0]
                         okj = isinstance(v, ast.Call) and res.canon(v.func) == "os.path.join" and len(v.args) == 3 \
                             and A.src(v.args[0]) == "self.output_directory" and isinstance(first, ast.Name) \
                             and A.src(v.args[1]) == first.id
@@ -243,7 +256,7 @@ def check_write_path_var(ctx, fn, loop, nm):
 # -- converters -------------------------------------------------------------------
 
 def atoms_of_case(case):
-    return [(A.src(t).replace('"', "'"), pol) for t, pol in case]
+    return [(A.norm_src(t).replace('"', "'"), pol) for t, pol in case]
 
 
 def incoming_changed_false(atoms, names):
@@ -368,7 +381,7 @@ def check_groups(ctx):
         for i, e in enumerate(p.ev):
             if e[0] == "stmt" and isinstance(e[1], ast.Assign) and any(A.src_with(t, gm) == "changed" for t in e[1].targets):
                 v = e[1].value
-                lits = K.lit_srcs(p, gm, upto=i)
+                lits = K.lit_srcs(p, gm, upto=i, norm=True)
                 if A.is_const(v, False):
                     n += 1
                     ctx.check("C19-b", "not any(all_changed)" in lits, e[1], "_update_with_group sets changed = False on a path that does not "
@@ -387,6 +400,22 @@ def check_groups(ctx):
 
 
 # -- MakeFilename -------------------------------------------------------------------
+
+def branch_of(node, iff):
+    """'body' / 'orelse' / 'test': the part of the If statement *iff* that contains *node*; None if not inside (or iff is None)."""
+    if iff is None:
+        return None
+    ch = node
+    for a in A.ancestors(node):
+        if a is iff:
+            if any(ch is x for x in iff.body):
+                return "body"
+            if any(ch is x for x in iff.orelse):
+                return "orelse"
+            return "test"
+        ch = a
+    return None
+
 
 def check_make_filename(ctx):
     res = ctx.res
@@ -415,7 +444,7 @@ def check_make_filename(ctx):
         if not stores:
             continue
         try:
-            cases = [[(S(t).replace('"', "'"), pol) for t, pol in c] for c in p.cases()]
+            cases = [[(A.norm_src(t, nm).replace('"', "'"), pol) for t, pol in c] for c in p.cases()]
         except Exception:
             continue
         for c in cases:
@@ -449,9 +478,12 @@ def check_make_filename(ctx):
         ok = len(used) == 1 and len(dels) == 1
         if ok:
             d = dels[0]
+            # `if prefix: del ...` or the equivalent `if not prefix: ... else: del ...`
             guard = A.enclosing(d, (ast.If,))
-            ok = guard is not None and S(guard.test) == part and d.lineno > used[0].lineno \
-                and A.enclosing(used[0], (ast.If,)) is A.enclosing(guard, (ast.If,))
+            gt, gpol = A.strip_not(guard.test) if guard is not None else (None, True)
+            ok = guard is not None and S(gt) == part and branch_of(d, guard) == ("body" if gpol else "orelse") \
+                and d.lineno > used[0].lineno and A.enclosing(used[0], (ast.If,)) is A.enclosing(guard, (ast.If,)) \
+                and branch_of(used[0], A.enclosing(guard, (ast.If,))) == branch_of(guard, A.enclosing(guard, (ast.If,)))
         ctx.check("C19-e", ok, loop, "MakeFilename uses output.%s in the file name without deleting it afterwards (or deletes it elsewhere): "
                   "the %s would be applied again by the next MakeFilename" % (part, part),
                   detail="output.%s deleted after it is merged into the file name" % part, construct="%s-delete" % part)
